@@ -131,3 +131,11 @@ PROPS.update({
     "C13": {"streams": [{"name": "template"}], "rule": TEMPLATE_RULE, "trusted_base": TB_TEMPLATE,
             "assumptions": ["times compared as instants at one-second resolution; strings valid UTF-8"]},
 })
+
+PROPS.update({
+    "C15": {"streams": [{"name": "alias"}],
+            "rule": "alias stream: histories of 4-17 operations over a world of several templates and rows of the real package: NewTemplate, With (every format x raw types incl. []byte), WithRow (sub-templates), CreateRowEmpty, CreateRow of slices / maps / JSON text / other, CreateRow of an existing row and Exporter.Export of it, UnmarshalJSON of a line (1/5 rejected part-way), Set, ImportAtKey, ImportAtPath with plain data; after every step every template (through CreateRowEmpty) and every live row is dumped and compared with the store model, and the direct oracle checks that nothing but the operation's target changed; plus whole Stream() runs over shared templates; a case is distinct by its operation list",
+            "trusted_base": TB_TEMPLATE + ["hand model JL.model.Heap (object ids and a heap on top of the pure row / template model): which operations allocate a new Value object, which overwrite one in place and which only read is written by hand from row.go / template.go / value.go"],
+            "assumptions": ["operations are given plain data: handing a Value or Row of one row to another (SetValue(k, other.GetValue(k2))) is explicit sharing, excluded and shown to interfere by Example C15_sharing_is_explicit",
+                            "sharing below the top level of a row (nested rows inside Auto cells) is outside the model, as the property restricts clones to top-level modification"]},
+})
